@@ -186,6 +186,15 @@ def int64Leaf (i : Int) : Bool := decide (-9223372036854775800 < i) && decide (i
 
 /-! ### what the converter does to a parsed document -/
 
+/-- the `second` converter fires for floats between 2000-01-01 and 2050-01-01 in seconds, both
+    ends included (tied to pkg.go by Theorems/GenC18 `gen_second_range`) -/
+def secondLo : Nat := 946684800
+def secondHi : Nat := 2524608000
+/-- a layout converter looks at strings of at least this many bytes (`gen_layout_min_len`) -/
+def layoutMin : Nat := 6
+/-- the `nano` converter (ojg.TimeNanoConverter) fires from 2000-01-01 in nanoseconds on -/
+def nanoLo : Int := 946684800000000000
+
 /-- a single member object `{key: v}` whose value is time text or nanoseconds -/
 def wrapFires (key fmt : String) : Members → Option J
   | [(k, v)] =>
@@ -201,18 +210,18 @@ mutual
 def convertDoc (c : Conv) : J → J
   | int i =>
     match c with
-    | .nano => if decide (946684800000000000 ≤ i) && int64Leaf i then .time ("nano:" ++ toString i) else int i
+    | .nano => if decide (nanoLo ≤ i) && int64Leaf i then .time ("nano:" ++ toString i) else int i
     | _ => int i
   | flo t =>
     match c with
-    | .second => if floatTokInRange t 946684800 2524608000 && decide (fracDigits t < 18) then .time ("second:" ++ t) else flo t
+    | .second => if floatTokInRange t secondLo secondHi && decide (fracDigits t < 18) then .time ("second:" ++ t) else flo t
     | _ => flo t
   | str s =>
     match c with
     | .rfc3339 =>
       if (decide (20 ≤ s.utf8ByteSize) && decide (s.utf8ByteSize ≤ 35) && isRFC3339 s) ||
          (s.utf8ByteSize == 10 && isDate s) then .time ("text:" ++ s) else str s
-    | .layout fmt => if decide (6 ≤ s.utf8ByteSize) && layoutMatches fmt s then .time ("text:" ++ s) else str s
+    | .layout fmt => if decide (layoutMin ≤ s.utf8ByteSize) && layoutMatches fmt s then .time ("text:" ++ s) else str s
     | _ => str s
   | arr xs => arr (convertL c xs)
   | obj kvs =>
